@@ -7,7 +7,11 @@ mixed base/ext shortcuts equal the definition.  Conformance: tools/gen_layout16.
 selected by its exact declared signature); harness/layout16/rt16.cpp runs every row >= 96 (quick) / 400 (thorough) times in
 exact-extent guard-paged arenas (strides {0,1,2,3,4,5,7,1000,65537} for inputs, {3,4,5,7,1000,65537} for results, permuted /
 repeated / overlapping / spaced index lists, coefficients in all representations), twice with different garbage in every
-undesignated cell and complementary result pre-fills, in forked batches; Trace_Layout16 accepts an event iff the driver
+undesignated cell and complementary result pre-fills, in forked batches; every row whose result may be the same object as
+an extension operand (planar register triples; interleaved arrays with result pointer == operand pointer and the same
+stride / index list) is also called in place (alias a, alias b), expected = Expected on the pre-call operands; every
+stride-taking input is also called with strides 2^30, 2^31-1, 2^32+3 in sparse arenas (address range reserved PROT_NONE,
+only pages with designated cells accessible); Trace_Layout16 accepts an event iff the driver
 addressed the operands as the row says, each result element is congruent to Expected, the changed cells are exactly the
 row's write footprint and the re-run agreed; crashes are never accepted."""
 import os, json, glob, shutil, time
@@ -29,12 +33,16 @@ def _compile(flags, src, obj):
     return r.returncode == 0, r.stderr[-1500:]
 
 
-def build(variant, rows, wd):
-    """-> (exe, rows_in_build, {row id: reason it could not be built})"""
+def build(variant, rows, wd, lax=()):
+    """-> (exe, rows_in_build, {row id: reason it could not be built}, note or None)
+    lax: ids of rows whose declared signature differs from the table's in cv / reference qualifiers only (their call sites
+    use plain overload resolution).  If the pinned call sites do not compile, everything is rebuilt with -DLAX_SIG (plain
+    overload resolution for every row) before rows are isolated and dropped."""
     flags = vlib.BASEFLAGS + vlib.VARIANTS[variant]
     nparts = 6 if variant == 'avx2' else 3
     gdir = os.path.join(wd, 'gen_' + variant)
-    files, vrows = G.gen_cpp(rows, variant, gdir, nparts)
+    files, vrows = G.gen_cpp(rows, variant, gdir, nparts, lax)
+    note = None
     fixed = [os.path.join(RT, 'rt16.cpp'), os.path.join(RT, 'rt16.hpp'), os.path.join(vlib.HARNESS, 'vh.hpp')]
     key = vlib._hash_files(vlib.repo_sources() + fixed + files, ' '.join(flags))
     d = os.path.join(vlib.CACHE, 'build', 'drv_l16_%s_%s' % (variant, key))
@@ -43,8 +51,9 @@ def build(variant, rows, wd):
     if os.path.exists(exe):
         sk = os.path.join(d, 'skipped.json')
         if os.path.exists(sk):
-            skipped = json.load(open(sk))
-        return exe, [r for r in vrows if r['id'] not in skipped], skipped
+            j = json.load(open(sk))
+            skipped, note = j['skipped'], j['note']
+        return exe, [r for r in vrows if r['id'] not in skipped], skipped, note
     os.makedirs(d, exist_ok=True)
     libobjs = vlib.build_lib(variant)
     t0 = time.time()
@@ -55,14 +64,35 @@ def build(variant, rows, wd):
     if not all(ok for ok, _ in res):
         if not res[-1][0] or not res[-2][0]:
             raise vlib.BuildError('C16 driver engine does not compile (%s):\n%s' % (variant, res[-1][1] + res[-2][1]))
-        # some call site does not compile against this tree: isolate it, one row per translation unit
+        # some call site pinned to its declared signature does not compile against this tree: first fall back to plain
+        # overload resolution (a signature that changed only in cv / reference qualifiers still takes the same arguments)
+        bad = [p for p, (ok, _) in enumerate(res[:-2]) if not ok]
+        badrows = [r['id'] for p in bad for r in vrows[p::nparts]]
+        vlib.log('C16: %d generated part(s) do not compile (%s); retrying with -DLAX_SIG' % (len(bad), variant))
+        with ThreadPoolExecutor(max_workers=8) as ex:
+            res = list(ex.map(lambda so: _compile(flags + ['-DLAX_SIG'], so[0], so[1]), zip(srcs, objs)))
+        if all(ok for ok, _ in res):
+            note = ('%s: call sites pinned to the declared signatures did not compile (parts holding %s); the driver was built with plain '
+                    'overload resolution (-DLAX_SIG)' % (variant, ', '.join(badrows)))
+    if not all(ok for ok, _ in res):
+        # isolate: one row per translation unit (plain overload resolution), rows that still do not compile are dropped
         vlib.log('C16: a generated part does not compile (%s); isolating rows' % variant)
         shutil.rmtree(gdir)
-        files, vrows = G.gen_cpp(rows, variant, gdir, len(vrows))
+        files, vrows = G.gen_cpp(rows, variant, gdir, len(vrows), lax)
         srcs = files[:-1]
         objs1 = [os.path.join(d, 'row_' + os.path.basename(s) + '.o') for s in srcs]
+
+        def row_compile(so):
+            ok, err = _compile(flags, so[0], so[1])
+            if ok:
+                return True, '', False
+            ok2, err2 = _compile(flags + ['-DLAX_SIG'], so[0], so[1])
+            return ok2, err2, ok2
         with ThreadPoolExecutor(max_workers=12) as ex:
-            res1 = list(ex.map(lambda so: _compile(flags, so[0], so[1]), zip(srcs, objs1)))
+            res1 = list(ex.map(row_compile, zip(srcs, objs1)))
+        laxed = [vrows[p]['id'] for p, t in enumerate(res1) if t[2]]
+        note = '%s: rows isolated one per translation unit%s' % (variant, ('; built with plain overload resolution (-DLAX_SIG): ' + ', '.join(laxed)) if laxed else '')
+        res1 = [(t[0], t[1]) for t in res1]
         good = []
         for p, (ok, err) in enumerate(res1):
             if ok:
@@ -80,10 +110,10 @@ def build(variant, rows, wd):
     r = sh(['g++'] + flags + objs + libobjs + ['-o', exe + '.tmp', '-lgmp', '-lgmpxx'], timeout=900)
     if r.returncode != 0:
         raise vlib.BuildError('C16 driver link failed (%s):\n%s' % (variant, r.stderr[-3000:]))
-    json.dump(skipped, open(os.path.join(d, 'skipped.json'), 'w'))
+    json.dump(dict(skipped=skipped, note=note), open(os.path.join(d, 'skipped.json'), 'w'))
     os.rename(exe + '.tmp', exe)
     vlib.log('built C16 driver (%s, %d rows) in %.1fs' % (variant, len(vrows) - len(skipped), time.time() - t0))
-    return exe, [r for r in vrows if r['id'] not in skipped], skipped
+    return exe, [r for r in vrows if r['id'] not in skipped], skipped, note
 
 
 # ------------------------------------------------------------------------------------------------- cases
@@ -124,28 +154,79 @@ def out_index(rng, L, j):
     return [t * g + off for t in slots]
 
 
-def gen_cases(rows, seed, ncalls):
+HUGE = [2**30, 2**31 - 1, 2**32 + 3]      # 3 * stride >= 2^31: 32-bit index arithmetic overflows / truncates
+
+
+def base_par(rng, r, j):
+    L = r['L']
+    par = dict(sa=0, sb=0, sc=0, ia=None, ib=None, ic=None)
+    for X, sh_ in (('a', 0), ('b', 4)):
+        d = r[X]
+        w = 3 if d['elem'] == 'ext' else 1
+        if d['kind'] == 'stride':
+            S = IN_EXT if w == 3 else IN_BASE
+            par['s' + X] = S[(j + sh_ * (1 + j // len(S))) % len(S)] if j < 3 * len(S) else S[rng.below(len(S))]
+        elif d['kind'] == 'index':
+            par['i' + X] = in_index(rng, L, w, j + sh_)
+    if r['c']['kind'] == 'stride':
+        par['sc'] = OUT_STR[(j // 2) % len(OUT_STR)] if j < 24 else OUT_STR[rng.below(len(OUT_STR))]
+    elif r['c']['kind'] == 'index':
+        par['ic'] = out_index(rng, L, j)
+    return par
+
+
+def alias_par(rng, r, X, j):
+    """in place: operand X is addressed exactly like the result (Layout16!SameCells)"""
+    L = r['L']
+    par = base_par(rng, r, j)
+    ck, xk = r['c']['kind'], r[X]['kind']
+    if ck in G.REGK:
+        return par
+    if xk == 'contig':                       # the operand is fixed at 3k: the result follows
+        if ck == 'stride':
+            par['sc'] = 3
+        elif ck == 'index':
+            par['ic'] = [3 * k for k in range(L)]
+    elif xk == 'stride':
+        if ck == 'contig':
+            par['s' + X] = 3
+        elif ck == 'stride':
+            par['s' + X] = par['sc']
+        else:
+            st = [3, 4, 7, 1000][j % 4]
+            par['ic'] = [k * st for k in range(L)]
+            par['s' + X] = st
+    else:                                    # index list = the result's element positions
+        pos = [3 * k for k in range(L)] if ck == 'contig' else [k * par['sc'] for k in range(L)] if ck == 'stride' else par['ic']
+        par['i' + X] = list(pos)
+    return par
+
+
+def gen_cases(rows, seed, ncalls, nalias, huge=True):
     rng = vlib.Rng(seed ^ 0xC16)
     cs = []
     ci = 0
+
+    def emit(r, par, j, al):
+        nonlocal ci
+        ci += 1
+        lst = lambda v: ','.join(str(x) for x in v) if v is not None else '-'
+        cs.append((ci, r['id'], '0x%x' % rng.next(), 1 if j % 4 == 1 else 0, par['sa'], par['sb'], par['sc'], lst(par['ia']), lst(par['ib']), lst(par['ic']), al))
     for r in rows:
-        L = r['L']
         for j in range(ncalls):
-            par = dict(sa=0, sb=0, sc=0, ia='-', ib='-', ic='-')
-            for X, sh_ in (('a', 0), ('b', 4)):
-                d = r[X]
-                w = 3 if d['elem'] == 'ext' else 1
-                if d['kind'] == 'stride':
-                    S = IN_EXT if w == 3 else IN_BASE
-                    par['s' + X] = S[(j + sh_ * (1 + j // len(S))) % len(S)] if j < 3 * len(S) else S[rng.below(len(S))]
-                elif d['kind'] == 'index':
-                    par['i' + X] = ','.join(str(v) for v in in_index(rng, L, w, j + sh_))
-            if r['c']['kind'] == 'stride':
-                par['sc'] = OUT_STR[(j // 2) % len(OUT_STR)] if j < 24 else OUT_STR[rng.below(len(OUT_STR))]
-            elif r['c']['kind'] == 'index':
-                par['ic'] = ','.join(str(v) for v in out_index(rng, L, j))
-            ci += 1
-            cs.append((ci, r['id'], '0x%x' % rng.next(), 1 if j % 4 == 1 else 0, par['sa'], par['sb'], par['sc'], par['ia'], par['ib'], par['ic']))
+            emit(r, base_par(rng, r, j), j, 'none')
+        for X in G.alias_modes(r):
+            for j in range(nalias):
+                emit(r, alias_par(rng, r, X, j), j, X)
+        if huge:
+            for X in 'ab':
+                if r[X]['kind'] == 'stride':
+                    for j, hs in enumerate(HUGE):
+                        if hs >= 2 ** r[X].get('pbits', 64):
+                            continue
+                        par = base_par(rng, r, j)
+                        par['s' + X] = hs
+                        emit(r, par, j, 'none')
     return cs
 
 
@@ -184,6 +265,11 @@ def describe(rec, row):
     u = vlib.unw64
     msgs = []
     L = row['L']
+    if rec.get('al', 'none') != 'none':
+        msgs.append('called in place (result is the same object as operand %s; operands are the values before the call)' % rec['al'])
+    for X in 'ab':
+        if rec.get('w' + X):
+            msgs.append('stride of %s = %d' % (X, u(rec['s%sw' % X])))
 
     def emb(d, v):
         return [u(v[0]) % P, 0, 0] if d['elem'] == 'base' else [u(x) % P for x in v]
@@ -207,7 +293,10 @@ def describe(rec, row):
                 base = 3 * k if row['c']['kind'] == 'contig' else rec['sc'] * k if row['c']['kind'] == 'stride' else rec['ic'][k]
                 foot |= {base + i for i in range(w)}
         chg = set(rec['chg'])
-        if rec['nchg'] != len(foot) or chg != foot:
+        if rec.get('al', 'none') != 'none':
+            if not chg <= foot or rec['nchg'] != len(rec['chg']):
+                msgs.append('in-place call: cells changed %s (count %d) outside the write footprint %s' % (sorted(chg - foot)[:24], rec['nchg'], sorted(foot)[:24]))
+        elif rec['nchg'] != len(foot) or chg != foot:
             msgs.append('cells changed %s (count %d) but the write footprint is %s' % (sorted(chg)[:24], rec['nchg'], sorted(foot)[:24]))
         if not rec['same']:
             msgs.append('a second run with different garbage in undesignated cells gave a different result (stray read)')
@@ -231,19 +320,20 @@ def run(tier, seed, replay=None):
         ck.note('spec/Overloads16.tla is stale with respect to tools/overloads16.json (the run uses the regenerated table)')
     ck.assumptions += ['tools/overloads16.json (drafted from the declarations, reviewed against every implementation) is the specification of the layouts; '
                        'Expected is the scalar operation of C09 on the k-th operands, compared modulo p',
-                       'operands and result do not alias; result strides >= 3 and result index lists spaced by >= 3 (distinct result elements)',
+                       'in-place calls (result = the same register triple / the same array with the same stride or index list as an extension '
+                       'operand) are exercised; partial overlaps of result and operand arrays (element k of the result on cells of another '
+                       'operand element) are out of scope; result strides >= 3 and result index lists spaced by >= 3 (distinct result elements)',
+                       'huge input strides (2^30, 2^31-1, 2^32+3) are exercised for uniform-stride inputs only (not for index lists or result strides)',
                        'register operands passed by non-const reference may be clobbered by the callee (not observed)']
     not_ex = {}
-    miss, gone = G.check_against(vlib.REPO)
+    build_notes = []
+    rows_live, lax, miss, gone = G.match_rows(vlib.REPO)
     for name, sig in miss:
         not_ex['%s(%s)' % (name, sig)] = 'declared in the tree under check but not in tools/overloads16.json'
-    gone = set(gone)
-    rows_live = []
-    for r in rows:
-        if (r['name'], r['sig']) in gone:
-            not_ex[r['id']] = 'table row has no declaration with this signature in the tree under check'
-        else:
-            rows_live.append(r)
+    for rid in gone:
+        not_ex[rid] = 'table row has no declaration with this signature in the tree under check'
+    for rid, sig in lax.items():
+        build_notes.append('%s: declared signature differs from the table in cv / reference qualifiers only (%s); call site uses plain overload resolution' % (rid, sig))
     if not replay:
         cfg = 'MC_Layout16_run.cfg'
         open(os.path.join(wd, cfg), 'w').write(open(os.path.join(wd, 'MC_Layout16.cfg')).read().replace('BSub = TRUE', 'BSub = %s' % ('TRUE' if tier == 'quick' else 'FALSE')))
@@ -260,15 +350,17 @@ def run(tier, seed, replay=None):
     exes = {}
     built = []
     for v in variants:
-        exe, vrows, skipped = build(v, rows_live, wd)
+        exe, vrows, skipped, note = build(v, rows_live, wd, lax)
         exes[v] = exe
         built += vrows
         not_ex.update(skipped)
-    ncalls = 96 if tier == 'quick' else 400
+        if note:
+            build_notes.append(note)
+    ncalls, nalias = (96, 16) if tier == 'quick' else (400, 60)
     if replay:
-        cases = [tuple(c) for c in json.load(open(replay))['case']['cases']]
+        cases = [tuple(c) if len(c) > 10 else tuple(c) + ('none',) for c in json.load(open(replay))['case']['cases']]
     else:
-        cases = gen_cases(built, seed, ncalls)
+        cases = gen_cases(built, seed, ncalls, nalias)
     t0 = time.time()
     traces = []
     for v in variants:
@@ -284,6 +376,14 @@ def run(tier, seed, replay=None):
     hs = [x for x in recs if x.get('e') == 'harness']
     if hs:
         raise RuntimeError('C16 harness self-check failed: %s' % hs[:3])
+    skips = [x for x in recs if x.get('e') == 'skip']
+    if skips:
+        # the address range of a huge stride could not be reserved here: recorded, not judged
+        recs = [x for x in recs if x.get('e') != 'skip']
+        with open(tpath, 'w') as f:
+            for x in recs:
+                f.write(json.dumps(x, separators=(',', ':')) + '\n')
+        ck.note('huge strides not exercised in %d call(s): %s' % (len(skips), skips[0].get('why')))
     t0 = time.time()
     v = validate_trace(wd, 'Trace_Layout16', 'Trace_Layout16.cfg', tpath, min_chunk=60, xmx='2g')
     t_val = time.time() - t0
@@ -309,6 +409,8 @@ def run(tier, seed, replay=None):
         if v2['rejected']:
             rec2 = v2['rejected'][0][1]
             kind = 'crash' if rec2.get('e') == 'crash' else 'mismatch'
+            if case[10] != 'none':
+                kind += ' in-place(result=%s)' % case[10]
             ck.violation('%s %s case=%s' % (rid, kind, ' '.join(str(x) for x in case[2:])),
                          '%s (header line %d, %s): %s' % (rid, row['line'], row['sig'], describe(rec2, row)),
                          dict(cases=[list(case)], event=vlib.compact(rec2)))
@@ -330,6 +432,18 @@ def run(tier, seed, replay=None):
     ck.cov['families'] = fam
     ck.cov['min_calls_per_exercised_overload'] = min([n for n in calls.values()] or [0])
     ck.cov['calls'] = len(recs)
+    l16 = [x for x in recs if x.get('e') == 'l16']
+    ck.cov['in_place_calls'] = dict(result_is_a=sum(1 for x in l16 if x['al'] == 'a'), result_is_b=sum(1 for x in l16 if x['al'] == 'b'),
+                                    rows_with_in_place_mode=sum(1 for r in rows if G.alias_modes(r)),
+                                    rows_called_in_place=len({x['id'] for x in l16 if x['al'] != 'none'}))
+    nh = sum(1 for x in l16 if x['wa'] or x['wb'])
+    ck.cov['huge_stride_calls'] = dict(calls=nh, rows=len({x['id'] for x in l16 if x['wa'] or x['wb']}), strides=[str(h) for h in HUGE],
+                                       rows_with_stride_input=sum(1 for r in rows if 'stride' in (r['a']['kind'], r['b']['kind'])),
+                                       not_exercised=('huge strides not exercised: %s' % skips[0].get('why')) if skips else '')
+    if build_notes:
+        ck.cov['build_notes'] = build_notes
+        for n in build_notes:
+            ck.note('build: ' + n)
     ck.cov['not_exercised'] = not_ex
     for k, why in not_ex.items():
         ck.note('not exercised: %s: %s' % (k, why))
